@@ -10,6 +10,8 @@ from props.C16 import WRAP as WRAP_WALK      # noqa: E402 (also registers how ar
 def run(ctx):
     b = build.ensure_explorer("hist_explore", "asan", extra_ld=WRAP)
     ctx.run_space(b, "histories", ["full=%d" % (6 if ctx.thorough else 5)], cpu_limit=60)
+    # the same histories over a stream that has no skip callback (the library reads over what it skips), one level shallower
+    ctx.run_space(b, "histories", ["full=%d" % (5 if ctx.thorough else 4), "noskip=1"], cpu_limit=60)
     ctx.run_space(b, "threads", ["preemptions=2", "stride=%d" % (1 if ctx.thorough else 5)], cpu_limit=600)
     if ctx.thorough:
         ctx.run_space(b, "threads", ["preemptions=3", "stride=17"], cpu_limit=1200)
